@@ -97,11 +97,11 @@ type Evidence struct {
 }
 
 var generalAssumptions = []string{
-	"sequential semantics: goroutines and the Go memory model are not modelled; mutex operations are no-ops",
+	"sequential semantics: goroutines and the Go memory model are not modelled; mutex operations only update ghost lock state (used by the C14 obligations), mutual exclusion itself is assumed of sync.Mutex/RWMutex",
 	"Go int is a mathematical integer; every int + - * gets an overflow obligation (safety/…/overflow) in the functions under a safety contract",
 	"len <= cap < 2^48 for every string and slice; memory exhaustion and GC are not modelled",
 	"bodies of functions outside /repo are replaced by the assumed contracts of /verif/contracts/stdlib.contracts (or havocked when there is none)",
-	"the SSA form produced by golang.org/x/tools/go/ssa v0.29.0 and the SMT solvers (z3 4.8.12, z3 5.1.0, cvc5 1.0) are trusted",
+	"the SSA form produced by golang.org/x/tools/go/ssa v0.29.0 and the SMT solvers are trusted: an unsat from z3 5.1.0 or cvc5 1.0 discharges an obligation, an unsat from z3 4.8.12 only together with one of them (it was seen to answer unsat on a satisfiable query, see docs/)",
 	"interface type assertions to repo interfaces succeed for every non-nil value (only implementing types are boxed)",
 }
 
